@@ -392,7 +392,7 @@ func (p *Pool) Get() any {
 	}
 	s.yield()
 	if n := len(p.items); n > 0 {
-		drop := s.opt.PoolDrop > 0 && s.choose(100) < s.opt.PoolDrop
+		drop := s.opt.PoolDrop > 0 && s.choose(100) >= 100-s.opt.PoolDrop
 		if drop {
 			s.PoolDrops++
 			p.items = p.items[:0] // a GC empties the pool
